@@ -63,12 +63,20 @@ def shrink(case, still_fails, max_calls=200, max_seconds=30.0):
                 continue
             i = len(cur) - 1
             while i >= 0 and budget():
-                cand = copy.deepcopy(best)
-                del _get(cand, path)[i]
+                try:
+                    cand = copy.deepcopy(best)
+                    del _get(cand, path)[i]
+                except (KeyError, IndexError, TypeError):
+                    break
                 if ok(cand):
                     best, changed = cand, True
                 i -= 1
-                cur = _get(best, path)
+                try:
+                    cur = _get(best, path)
+                except (KeyError, IndexError, TypeError):
+                    break
+                if not isinstance(cur, list):
+                    break
                 i = min(i, len(cur) - 1)
     for path, val in list(_numbers(best)):
         if not budget():
